@@ -145,6 +145,7 @@ func main() {
 		}
 	}
 	debug.SetMaxStack(2 << 30)
+	debug.SetGCPercent(800)
 	if *replay != "" {
 		os.Exit(doReplay(*prop, *replay))
 	}
@@ -377,6 +378,11 @@ func runProperty(prop, tier, only string, workers int, verbose bool, dump string
 	}
 	r.pending.Wait()
 	close(r.jobs)
+	if os.Getenv("VS_SLOW") != "" {
+		for k, v := range feasCount {
+			fmt.Fprintf(os.Stderr, "feas %5d %s\n", v, k)
+		}
+	}
 	return r.report(prop, tier, hs, time.Since(t0).Seconds(), loadT.Seconds())
 }
 
@@ -475,6 +481,12 @@ func (r *runner) runCase(job caseJob, solver *Solver) {
 	res.Spawns = ex.spawns
 	r.mu.Unlock()
 	if r.verbose {
+		for _, p := range ex.panics {
+			fmt.Fprintf(os.Stderr, "   panic-site: %s at %s [%s] pcconst=%v\n", p.Kind, p.Pos, p.Msg, p.PC.IsConst())
+		}
+		for _, p := range ex.initSkipped {
+			fmt.Fprintf(os.Stderr, "   init-skipped: %s\n", firstLine(p))
+		}
 		fmt.Fprintf(os.Stderr, "[%s] case {%s}: %d asserts, %d reaches, %d panics, %d unwinds, %d blocks, steps=%d, %.2fs\n", h.Name, ex.curCase, len(ex.asserts), len(ex.reaches), len(ex.panics), len(ex.unwinds), len(ex.blocks), ex.steps, time.Since(t0).Seconds())
 	}
 }
@@ -498,7 +510,9 @@ func (ex *Exec) runInit(st *State, p *ssa.Package) {
 		return
 	}
 	ex.initAllowed = p
+	ex.inInit = true
 	ex.callFunction(st, init, nil, nil, 0)
+	ex.inInit = false
 }
 
 func (r *runner) discharge(h *HarnessCfg, res *HarnessResult, ex *Exec, solver *Solver) {
